@@ -262,8 +262,8 @@ func builtinStringReplace(call FunctionCall) Value {
 					argumentList[index] = Value{}
 				}
 			}
-			// Replace expects rune offsets not byte offsets.
-			startIndex := utf8.RuneCountInString(target[0:match[0]])
+			// Replace expects utf16 offsets not byte offsets.
+			startIndex := utf16Length(target[0:match[0]])
 			argumentList[matchCount+0] = intValue(startIndex)
 			argumentList[matchCount+1] = stringValue(target)
 			replacement := replace.call(Value{}, argumentList, false, nativeFrame).string()
@@ -297,7 +297,8 @@ func builtinStringSearch(call FunctionCall) Value {
 	if result == nil {
 		return intValue(-1)
 	}
-	return intValue(result[0])
+	// Find the utf16 index in the string, not the byte index.
+	return intValue(utf16Length(target[:result[0]]))
 }
 
 func builtinStringSplit(call FunctionCall) Value {
